@@ -131,7 +131,10 @@ def iter_items(t):
             r = to_py(t)
         except NotConcrete:
             return None
-        if len(r) > MAX_FOLD_LEN:
+        try:
+            if len(r) > MAX_FOLD_LEN:
+                return None
+        except OverflowError:
             return None
         return [C(i) for i in r]
     if tag == 'c' and isinstance(t[1], (bytes, str)):
@@ -170,7 +173,7 @@ def is_pyint(t):
     tag = t[0]
     if tag == 'c':
         return type(t[1]) is int
-    if tag == 'it':
+    if tag in ('it', 'bv'):
         return t[-1] == 'num'
     if tag == 'attr':
         return t[2] in NUM_ATTRS and t[2] not in SEQ_ATTRS and t[2] != 'ival'
@@ -231,7 +234,7 @@ def kind_of(t):
         if tag == '*' and ks and all(k == 'num' for k in ks):
             return 'num'
         return None
-    if tag in ('phi', 'after', 'it') and type(t[-1]) is str:
+    if tag in ('phi', 'after', 'it', 'bv') and type(t[-1]) is str:
         return t[-1]
     if tag == 'attr' and t[2] in SEQ_ATTRS:
         return 'seq'
@@ -352,6 +355,84 @@ def mk_neg(b, opts=None):
     return mk_bin('*', C(-1), b, opts)
 
 
+SEQ_METHODS = {'split', 'bitlist', 'span', 'keys', 'values', 'items', 'unpack', 'indices', 'bytes', 'copy', 'encode', 'digest', 'hex'}
+SEQ_BUILTINS = {'list', 'tuple', 'bytes', 'bytearray', 'sorted', 'str', 'unpack', 'pack'}
+
+
+def _len_of(S):
+    if S[0] in ('list', 'tuple'):
+        return C(len(S[1]))
+    if S[0] == 'c' and isinstance(S[1], (bytes, str)):
+        return C(len(S[1]))
+    return ('call', ('b', 'len'), (S,), ())
+
+
+def canon_seq(S, opts=None):
+    """(length term, k -> element term) for an iterable that is certainly indexable, else None (opaque iterator)"""
+    tag = S[0]
+    if tag == 'range':
+        a, b, st = S[1], S[2], S[3]
+        if a == C(0) and st == C(1):
+            n = b
+        else:
+            try:
+                n = C(len(to_py(S)))
+            except (NotConcrete, OverflowError):
+                n = ('call', ('b', 'len'), (S,), ())
+        return n, (lambda k: mk_bin('+', a, mk_bin('*', st, k, opts), opts))
+    if tag == 'call' and S[1] == ('b', 'reversed') and len(S[2]) == 1 and not S[3]:
+        inner = canon_seq(S[2][0], opts)
+        if inner is None:
+            return None
+        n, g = inner
+        return n, (lambda k: g(mk_bin('+', mk_bin('+', n, C(-1), opts), mk_neg(k, opts), opts)))
+    if tag == 'idx' and S[2] == ('slice', NONE, NONE, C(-1)):
+        return canon_seq(('call', ('b', 'reversed'), (S[1],), ()), opts)
+    if tag in ('list', 'tuple') and len(S[1]) >= 2 and all(is_int(x) and type(x[1]) is int for x in S[1]):
+        vals = [x[1] for x in S[1]]
+        d = vals[1] - vals[0]
+        if d != 0 and all(vals[i + 1] - vals[i] == d for i in range(len(vals) - 1)):
+            # an arithmetic progression written out (e.g. a folded reversed(range(n))): closed form
+            return C(len(vals)), (lambda k: mk_bin('+', C(vals[0]), mk_bin('*', C(d), k, opts), opts))
+    ok = tag in ('arg', 'attr', 'g', 'idx', 'phi', 'after', 'afterlocal', 'hoist', 'upd', 'list', 'tuple', 'comp', '+', '*', 'sym', 'ite', 'mut', 'obj')
+    if tag == 'c' and isinstance(S[1], (bytes, str)):
+        ok = True
+    if tag == 'call' and not ok:
+        f = S[1]
+        if f[0] in ('g', 'b') and f[1] in SEQ_BUILTINS:
+            ok = True
+        elif f[0] == 'attr' and f[2] in SEQ_METHODS:
+            ok = True
+    if not ok:
+        return None
+    return _len_of(S), (lambda k: get_idx(S, k))
+
+
+def canon_iter(it, opts=None):
+    """Canonical iteration space: (number of iterations n, k -> value bound to the loop target) with k in range(n);
+    enumerate / zip / reversed / direct iteration over an indexable value all become index loops.  None: leave as is."""
+    if it[0] == 'range':
+        return None
+    if it[0] == 'call' and it[1] == ('b', 'enumerate') and len(it[2]) in (1, 2) and not it[3]:
+        base = canon_seq(it[2][0], opts)
+        if base is None:
+            return None
+        n, g = base
+        start = it[2][1] if len(it[2]) == 2 else C(0)
+        return n, (lambda k: ('tuple', (mk_bin('+', k, start, opts) if start != C(0) else k, g(k))))
+    if it[0] == 'call' and it[1] == ('b', 'zip') and len(it[2]) >= 1 and not it[3]:
+        bases = [canon_seq(a, opts) for a in it[2]]
+        if any(b is None for b in bases):
+            return None
+        prim = [b for a, b in zip(it[2], bases) if a[0] != 'range'] or bases
+        n = prim[0][0]
+        return n, (lambda k: ('tuple', tuple(b[1](k) for b in bases)))
+    base = canon_seq(it, opts)
+    if base is None:
+        return None
+    return base
+
+
 def force_num(t, opts=None):
     """t is known not to be a Python sequence: rebuild `+` inside it as the commutative sum"""
     if t[0] == '+':
@@ -402,6 +483,16 @@ def mk_bin(op, a, b, opts=None):
         if a[0] == b[0] and a[0] in ('list', 'tuple'):
             if len(a[1]) + len(b[1]) <= MAX_FOLD_LEN:
                 return (a[0], a[1] + b[1])
+    if op == '*' and not (opts is not None and opts.ordered):
+        # linear normal form: an integer constant distributes over a numeric sum
+        for cst, sm in ((a, b), (b, a)):
+            if is_int(cst) and type(cst[1]) is int and sm[0] == '+' and (kind_of(sm) == 'num' or (opts is not None and opts.plus_commutes)) \
+                    and not any(kind_of(x) == 'seq' for x in sm[1]):
+                acc = None
+                for x in sm[1]:
+                    y = mk_bin('*', cst, x, opts)
+                    acc = y if acc is None else mk_bin('+', acc, y, opts)
+                return acc
     if op == '*':
         for s, n in ((a, b), (b, a)):
             if s[0] in ('list', 'tuple') and is_int(n):
@@ -1089,7 +1180,15 @@ class PE:
             gl = []
             for gi, g in enumerate(gens):
                 it = it0 if gi == 0 else self.ev(g.iter, env2)
-                self.bind_pattern_syms(g.target, env2, lambda path, gi=gi: ('bv', d, gi) + path)
+                ci = canon_iter(it, self.opts)
+                if ci is not None or it[0] == 'range':
+                    if ci is not None:
+                        it = ('range', C(0), ci[0], C(1))
+                        self.bind_target(g.target, ci[1](('bv', d, gi, 'num')), env2)
+                    else:
+                        self.bind_pattern_syms(g.target, env2, lambda path, gi=gi: ('bv', d, gi) + path + ('num',))
+                else:
+                    self.bind_pattern_syms(g.target, env2, lambda path, gi=gi: ('bv', d, gi) + path)
                 conds = tuple(self.ev(c, env2) for c in g.ifs)
                 gl.append((it, conds))
             elt = elt_fn(env2)
@@ -1262,7 +1361,10 @@ class PE:
                 if a[0] == 'c' and isinstance(a[1], (bytes, str)):
                     return C(len(a[1]))
                 if a[0] == 'range':
-                    return C(len(to_py(a)))
+                    try:
+                        return C(len(to_py(a)))
+                    except OverflowError:
+                        return None
                 return None
             if name == 'range' and 1 <= len(args) <= 3:
                 if len(args) == 1:
@@ -1727,14 +1829,19 @@ class PE:
                 if any(tree_size(v, memo) > 60000 for v in env.values()):
                     raise Unsupported('unrolled loop makes terms too large', s)
             return False
-        self.loop_summary('for', s, it, env, effects)
+        ci = canon_iter(it, self.opts)
+        if ci is not None:
+            n, elem = ci
+            self.loop_summary('for', s, ('range', C(0), n, C(1)), env, effects, elem)
+        else:
+            self.loop_summary('for', s, it, env, effects)
         return False
 
     def exec_while(self, s, env, effects):
         self.loop_summary('while', s, None, env, effects)
         return False
 
-    def loop_summary(self, kind, s, it, env, effects):
+    def loop_summary(self, kind, s, it, env, effects, elem=None):
         self.nloops += 1
         L = self.nloops
         assigned = self.assigned_names(s.body + ([] if kind == 'while' else []))
@@ -1770,7 +1877,10 @@ class PE:
             if v not in carried and v not in tn and is_alloc(env2[v]):
                 env2[v] = ('hoist', env2[v])
         if kind == 'for':
-            self.bind_pattern_syms(s.target, env2, itsym)
+            if elem is not None:
+                self.bind_target(s.target, elem(itsym()), env2)
+            else:
+                self.bind_pattern_syms(s.target, env2, itsym)
             cond = None
         else:
             cond = self.ev(s.test, env2)
@@ -1823,7 +1933,10 @@ class PE:
                 for v in list(env2):
                     if v not in carried2 and v not in ivs and v not in tn and is_alloc(env2[v]):
                         env2[v] = ('hoist', env2[v])
-                self.bind_pattern_syms(s.target, env2, itsym)
+                if elem is not None:
+                    self.bind_target(s.target, elem(itsym()), env2)
+                else:
+                    self.bind_pattern_syms(s.target, env2, itsym)
                 body_eff = []
                 self.exec_block(s.body, env2, body_eff)
                 n_it = None
@@ -2076,7 +2189,7 @@ def _show(t, d=0):
     if tag == 'it':
         return 'it%d%s' % (t[1], ''.join('.%d' % x for x in t[2:] if type(x) is int))
     if tag == 'bv':
-        return 'bv%d_%d%s' % (t[1], t[2], ''.join('.%d' % x for x in t[3:]))
+        return 'bv%d_%d%s' % (t[1], t[2], ''.join('.%d' % x for x in t[3:] if type(x) is int))
     if tag in ('+', '-', '*', '//', '/', '%', '**', '<<', '>>', '&', '|', '^'):
         return '(' + (' %s ' % tag).join(_show(x, d + 1) for x in t[1]) + ')'
     if tag == 'cmp':
